@@ -205,6 +205,10 @@ def build(run):
         yield "(f^2)^0.5 * (1/f)  [sign]", lambda m, t, g: P(W(W(f, C.IntValue(2)), C.FloatValue(0.5)), D(one, f))
         yield "(f^0.5)^2 * (1/f)", lambda m, t, g: P(W(W(f, C.FloatValue(0.5)), C.IntValue(2)), D(one, f))
         yield "(f^2)^1.5 * (1/f)^3 [sign]", lambda m, t, g: P(W(W(f, C.IntValue(2)), C.FloatValue(1.5)), W(D(one, f), C.IntValue(3)))
+        yield "f * (1/f)^3 (net -2)", lambda m, t, g: P(P(f, W(D(one, f), C.IntValue(3))), Opq("h"))
+        yield "f^0.5 * (1/f)^2 (net -1.5)", lambda m, t, g: P(P(W(f, C.FloatValue(0.5)), W(D(one, f), C.IntValue(2))), Opq("h"))
+        yield "detJ * (1/detJ)^3 g (net -2)", lambda m, t, g: P(P(C.JacobianDeterminant(m), W(D(one, C.JacobianDeterminant(m)), C.IntValue(3))), Opq("h"))
+        yield "f^2 * (1/f)^5 (net -3)", lambda m, t, g: P(W(f, C.IntValue(2)), W(D(one, f), C.IntValue(5)))
         yield "f^0.5 * 1/(f^0.5)", lambda m, t, g: P(W(f, C.FloatValue(0.5)), D(one, W(f, C.FloatValue(0.5))))
         yield "g * f * h * (1/f)", lambda m, t, g: P(P(Opq("g"), f), P(Opq("h"), D(one, f)))
         yield "f * (1/g) (no cancel)", lambda m, t, g: P(f, D(one, Opq("g")))
@@ -264,6 +268,31 @@ def build(run):
                     ("(1/f)^3", lambda: C.Power(C.Division(one, f), C.IntValue(3))),
                     ("((f^2)^2)^0.25", lambda: C.Power(C.Power(C.Power(f, C.IntValue(2)), C.IntValue(2)), C.FloatValue(0.25)))]:
         abe(nm, mkf)
+
+    # ---- _make_power(base, e) denotes base**e for every exponent the canceller can produce (positive, negative, fractional, 0, +-1)
+    def make_power():
+        from fractions import Fraction as _F
+        f_ = Opq("f")
+        n = 0
+        for e_ in (0, 1, -1, 2, -2, 3, -3, 0.5, -0.5, 1.5, -1.5, 2.5, -2.5, 5, -5):
+            r = CJ._make_power(f_, e_) if e_ != 0 else None
+            if r is None:
+                continue
+
+            def mk(symbolic, valuation):
+                return World(symbolic=symbolic, complex_mode=False, valuation=valuation)
+
+            def spec(w, c, env, e_=e_):
+                b = den(w, f_, (), {})
+                w.require(N.cmp(">", b, 0))
+                return den(w, C.Power(f_, C.FloatValue(e_) if isinstance(e_, float) else C.IntValue(e_)), (), {}) if e_ > 0 else \
+                    N.div(1, den(w, C.Power(f_, C.FloatValue(-e_) if isinstance(e_, float) else C.IntValue(-e_)), (), {}))
+            res = check_same(mk, r, spec, (), timeout_ms=tmo, what=f"_make_power(f, {e_}) == f**{e_} for f > 0")
+            n += 1
+            if res.status != "proved":
+                return res
+        return proved("z3", vcs=n, sample=f"_make_power(f, e) == f**e for {n} exponents (positive, negative, fractional)")
+    run.add("_make_power/denotes-the-power", make_power, kind="values")
 
     def canary():
         m = mesh("triangle", 2)
